@@ -1,5 +1,6 @@
 import Dcg.Proofs.Escape
 import Dcg.Proofs.Docstring
+import Dcg.Proofs.Repr
 import Dcg.Model.Sites
 import Dcg.Gen.EscTables
 import Dcg.Gen.Templates
@@ -38,31 +39,38 @@ theorem typedDict_key_exact (s rest : List Char) (h : rest.head? ≠ some '\'') 
     lit '\'' (quoted '\'' typedDictKeyTable s ++ rest) = some (s, rest) :=
   lit_quoted typedDictKeyTable_ok s rest h
 
-/-! ### Regex patterns: `r'` + translate(patternTable) + `'` (raw literal) -/
+/-! ### Regex patterns: `pattern_literal` = `r'` + pattern + `'` when raw-safe, else `repr(pattern)` -/
 
 theorem pattern_sites_raw_quoted :
     patternSites.all (fun s => s.2.1 == "r'" && s.2.2 == "'") = true ∧ patternSites ≠ [] := by
   decide
 
-/-- The full-strength statement is FALSE for patterns: a quote is read back as backslash+quote. -/
-theorem pattern_not_exact :
-    litRaw '\'' (quoted '\'' patternTable ['\''] ++ ['\n']) = some (['\\', '\''], ['\n']) := by
-  simp [litRaw, quoted, translate, tr, patternTable, List.lookup, scanRaw, unitRaw]
+/-- FULL STRENGTH, all patterns, both branches of `pattern_literal`: the literal the generator
+writes evaluates to exactly the pattern and the lexer resumes right behind it. -/
+theorem pattern_literal_exact (pr : Char → Bool) (p rest : List Char)
+    (h1 : rest.head? ≠ some '\'') (h2 : rest.head? ≠ some '"') :
+    (if patternRawOK p then litRaw '\'' ('\'' :: p ++ ['\''] ++ rest)
+     else lit (Dcg.Py.Repr.reprQuote p) (Dcg.Py.Repr.reprStr pr p ++ rest)) = some (p, rest) := by
+  split
+  · rename_i h
+    exact litRaw_plain (by decide) p rest h h1
+  · refine Dcg.Proofs.Repr.repr_roundtrip pr p rest ?_
+    rcases Dcg.Proofs.Repr.reprQuote_cases p with h | h <;> rw [h] <;> assumption
 
-/-- …and a backslash directly before a quote ends the literal early (structure changes). -/
-theorem pattern_can_break :
-    litRaw '\'' (quoted '\'' patternTable ['\\', '\''] ++ ['\n']) =
-      some (['\\', '\\'], ['\'', '\n']) := by
-  simp [litRaw, quoted, translate, tr, patternTable, List.lookup, scanRaw, unitRaw]
+example : patternRawOK "^\\d+\\.[a-z]\\\\$".toList = true := by decide
+example : patternRawOK "^a'\\b\"$".toList = false := by decide
+example : patternRawOK "dangling\\".toList = false := by decide
 
-/-- PARTIAL: for patterns in which every backslash is followed by a harmless character and no
-character of the table (quote, control characters) occurs, the raw literal is exact. -/
-theorem pattern_partial (s rest : List Char) (hs : rawSafe '\'' patternTable s = true)
-    (h : rest.head? ≠ some '\'') :
-    litRaw '\'' (quoted '\'' patternTable s ++ rest) = some (s, rest) :=
-  litRaw_quoted (by decide) s rest hs h
+/-- why the raw form cannot be used unconditionally (the repaired defect D5): with the former
+cooked-literal table a quote came back as backslash+quote… -/
+theorem raw_quote_not_exact :
+    litRaw '\'' ("'\\''".toList ++ ['\n']) = some (['\\', '\''], ['\n']) := by
+  simp [litRaw, scanRaw, unitRaw]
 
-example : rawSafe '\'' patternTable "^\\d+\\.[a-z]\\\\$".toList = true := by decide
+/-- …and a backslash directly before a quote ended the literal early. -/
+theorem raw_backslash_quote_breaks :
+    litRaw '\'' ("'\\\\''".toList ++ ['\n']) = some (['\\', '\\'], ['\'', '\n']) := by
+  simp [litRaw, scanRaw, unitRaw]
 
 /-! ### Docstrings: template `"""` … `{{ description | escape_docstring | indent(4) }}` … `"""` -/
 
